@@ -605,3 +605,20 @@ def random_samples_uniform(h):
     for i in range(2):
         for j in range(3):
             h.check('every-sampled-value-inside-its-range', 'lb[%d] <= pts[%d][%d] and pts[%d][%d] <= ub[%d]' % (i, i, j, i, j, i), pts=pts, lb=lb, ub=ub)
+
+
+@contract('C09/grid.samplepts', ['C09', 'C02'], 'mystic/math/grid.py::samplepts', native=False)
+def samplepts(h):
+    """samplepts(lb, ub, npts) without a distribution: a LIST of npts points, each with one coordinate per range and every
+    coordinate inside its range (two coordinates, three points) -- what BuckshotSolver starts its members from"""
+    if not h.is_sym():
+        h.unsupported('symbolic only')
+    from pyvc.values import ModRef
+    lb, ub = h.vec('lb', 2), h.vec('ub', 2)
+    h.assume('lb[0] <= ub[0] and lb[1] <= ub[1]', lb=lb, ub=ub)
+    h.set_summaries({('mystic/tools.py', 'random_state'): lambda I, c, a, k: ModRef('numpy.random')})
+    pts = h.call(h.get('mystic/math/grid.py::samplepts'), lb, ub, 3)
+    h.check('npts-points-of-one-coordinate-per-range', 'len(pts) == 3 and len(pts[0]) == 2 and len(pts[1]) == 2 and len(pts[2]) == 2', pts=pts)
+    for j in range(3):
+        for i in range(2):
+            h.check('every-coordinate-inside-its-range', 'lb[%d] <= pts[%d][%d] and pts[%d][%d] <= ub[%d]' % (i, j, i, j, i, i), pts=pts, lb=lb, ub=ub)
